@@ -432,7 +432,7 @@ Definition oracle_spec_langid (op : bytes) (args : list bytes) (impl : bytes) : 
   else None.
 
 (* ================================================================== locales / extensions *)
-From UL Require Import Ext LocaleOrd Ops AbstractLocale LocaleSpec.
+From UL Require Import Ext LocaleOrd Ops AbstractLocale LocaleSpec CanonLocale.
 
 Definition semi : bytes := [59].
 Definition fmt_kmap (m : kmap) : bytes :=
@@ -623,7 +623,7 @@ Definition oracle_model_locale (op : bytes) (args : list bytes) : option bytes :
    grammar reading puts in the lenient zone; an empty body or an empty token never survives the
    reprint test) *)
 Definition canon_locale_text (s : bytes) : bool :=
-  canon_alphabet s &&
+  canon_alphabet s && canon_locale_strict s &&
   match spec_locale_zone (split s) with
   | MustAccept v => beqb (loc_to_string v) s
   | Either v => beqb (loc_to_string v) s
